@@ -295,14 +295,39 @@ pub fn check_case(ctx: &Ctx, n: u64, case: &Case) -> Vec<Violation> {
     if let Some(stage) = first_stage {
         let offenders: BTreeSet<String> = case.faults.iter().filter(|f| f.stage == stage).map(|f| abs(&f.file)).collect();
         let named: BTreeSet<String> = located.iter().map(|l| l.path.clone()).collect();
+        // a check-stage fault of an operation file may legitimately be located in a file it imports: the variable
+        // definition is in the operation file, the ill-typed use of it inside the imported fragment (nitrogql reports
+        // at the use). Such an offender counts as named when a diagnostic names it or a file of its import closure.
+        let reach_of = |o: &String| -> BTreeSet<String> {
+            let mut seen: BTreeSet<String> = BTreeSet::new();
+            let mut work = vec![o.clone()];
+            while let Some(f) = work.pop() {
+                if !seen.insert(f.clone()) {
+                    continue;
+                }
+                if let Some((rel, _)) = input_abs.get(&f) {
+                    for line in text_of(rel).lines() {
+                        let l = line.trim_start();
+                        if l.starts_with("#import") {
+                            if let Some(q) = l.rfind(" from ") {
+                                let path = l[q + 6..].trim().trim_matches('"');
+                                work.push(crate::refimport::resolve_path(&f, path));
+                            }
+                        }
+                    }
+                }
+            }
+            seen
+        };
+        let named_for = |o: &String| -> bool { if stage == Stage::OpCheck { reach_of(o).iter().any(|f| named.contains(f)) } else { named.contains(o) } };
         if located.is_empty() {
             let st = if matches!(stage, Stage::SchemaParse | Stage::OpParse) { "parse-stage".to_string() } else { format!("{stage:?}") };
             out.push(mk(format!("C18|no-located-diagnostic|{fmt}|stage={st}"), format!("exit {:?} but nothing in the output locates a fault by file, line and column — {what}; stdout {:?} stderr {:?}", r.status, clip(&r.stdout, 300), clip(&r.stderr, 300))));
-        } else if !offenders.iter().any(|o| named.contains(o)) {
+        } else if !offenders.iter().any(|o| named_for(o)) {
             out.push(mk(format!("C18|located-diagnostics-miss-the-faulty-files|{fmt}|stage={stage:?}"), format!("faulty files {offenders:?}, named files {named:?} — {what}")));
         } else if matches!(stage, Stage::OpCheck | Stage::OpParse | Stage::OpImport) {
             for o in &offenders {
-                if !named.contains(o) {
+                if !named_for(o) {
                     out.push(mk(format!("C18|offending-operation-file-not-named|{fmt}|stage={stage:?}"), format!("{o} has a fault but no diagnostic names it (named: {named:?}) — {what}")));
                 }
             }
@@ -483,7 +508,7 @@ pub fn make_case(rng: &mut Rng, proj: &Project, k: usize) -> Option<Case> {
 
 pub fn run(ctx: &Ctx, rep: &mut Report) {
     crate::gen_syntax::set_allow_block(false);
-    let n = ctx.budget(3_200, 120_000);
+    let n = ctx.budget(12_800, 240_000);
     for case_n in 0..n {
         let mut rng = ctx.rng("case", case_n);
         let Some(proj) = gen_project(&mut rng, &ProjOpts::standard()) else {
